@@ -81,6 +81,17 @@ static std::vector<Pattern> patterns() {
     v.push_back({"response_chunk_extensions", 0, 0, [](size_t k, int) { return Streams{RQ, RSC + "1" + rep(";a=b", k) + "\r\na\r\n0\r\n\r\n", 1}; }});
     v.push_back({"response_trailer_lines", 0, 1, [](size_t k, int p) { return Streams{RQ, RSC + "0\r\n" + (p ? repi("T", ": v\r\n", k) : rep("T: v\r\n", k)) + "\r\n", 1}; }});
     v.push_back({"response_content_encoding_tokens", 0, 2, [](size_t k, int p) { return Streams{RQ, RSH + "Content-Encoding: " + rep(p == 0 ? "gzip," : p == 1 ? "x, " : "deflate , ", k) + "\r\nContent-Length: 3\r\n\r\nabc", 1}; }});
+    v.push_back({"response_content_encoding_separators_only", 0, 3, [](size_t k, int p) { return Streams{RQ, RSH + "Content-Encoding: " + rep(p == 0 ? "," : p == 1 ? " " : p == 2 ? ", " : ",,,, ", k) + (p & 1 ? "gzip" : "none") + "\r\nContent-Length: 3\r\n\r\nabc", 1}; }});
+    v.push_back({"response_folded_lines_after_line_without_colon", 1, 8, [](size_t k, int p) { return Streams{RQ, RSH + "X-No-Colon-Here\r\n" + rep(" " + nm(p) + "\r\n", k) + "Content-Length: 0\r\n\r\n", 1}; }});
+    v.push_back({"response_folded_lines_after_empty_value", 1, 8, [](size_t k, int p) { return Streams{RQ, RSH + "X-A:\r\n" + rep("\t" + nm(p) + "\r\n", k) + "Content-Length: 0\r\n\r\n", 1}; }});
+    v.push_back({"response_transfer_encoding_tokens", 0, 1, [](size_t k, int p) { return Streams{RQ, RSH + "Transfer-Encoding: " + rep(p ? "x, " : ",", k) + "chunked\r\n\r\n1\r\na\r\n0\r\n\r\n", 1}; }});
+    v.push_back({"response_content_type_parameters", 0, 0, [](size_t k, int) { return Streams{RQ, RSH + "Content-Type: text/html" + rep("; a=b", k) + "\r\nContent-Length: 0\r\n\r\n", 1}; }});
+    v.push_back({"request_folded_lines_after_line_without_colon", 1, 8, [](size_t k, int p) { return Streams{RQH + "X-No-Colon-Here\r\n" + rep(" " + nm(p) + "\r\n", k) + "\r\n", "", 0}; }});
+    v.push_back({"request_folded_lines_after_empty_value", 1, 8, [](size_t k, int p) { return Streams{RQH + "X-A:\r\n" + rep("\t" + nm(p) + "\r\n", k) + "\r\n", "", 0}; }});
+    v.push_back({"request_transfer_encoding_tokens", 0, 1, [](size_t k, int p) { return Streams{"POST / HTTP/1.1\r\nHost: h\r\nTransfer-Encoding: " + rep(p ? "x, " : ",", k) + "chunked\r\n\r\n1\r\na\r\n0\r\n\r\n", "", 0}; }});
+    v.push_back({"request_content_type_parameters", 0, 1, [](size_t k, int p) { return Streams{with_len("POST / HTTP/1.1\r\nHost: h\r\nContent-Type: " + std::string(p ? "multipart/form-data" : "text/plain") + rep("; a=b", k) + "; boundary=b\r\n", "--b--\r\n"), "", 0}; }});
+    v.push_back({"request_host_header_long", 0, 1, [](size_t k, int p) { return Streams{"GET / HTTP/1.1\r\nHost: " + rep(p ? "a." : "a", k) + "example\r\n\r\n", "", 0}; }});
+    v.push_back({"request_content_encoding_tokens", 0, 1, [](size_t k, int p) { return Streams{with_len("POST / HTTP/1.1\r\nHost: h\r\nContent-Encoding: " + rep(p ? "," : "gzip, ", k) + "\r\n", "abc"), "", 0}; }});
     v.push_back({"response_interim_100_continue", 0, 0, [](size_t k, int) { return Streams{RQ, rep("HTTP/1.1 100 Continue\r\n\r\n", k) + RSH + "Content-Length: 0\r\n\r\n", 1}; }});
     v.push_back({"response_body_without_status_line", 0, 1, [](size_t k, int p) { return Streams{RQ, rep(p ? "junk\r\n" : "j", k), 1}; }});
     v.push_back({"response_identity_body_lines", 0, 0, [](size_t k, int) { return Streams{RQ, RSH + "\r\n" + rep("body line\r\n", k), 1}; }});
